@@ -35,6 +35,8 @@ type errUnsupported struct{ msg string }
 func (e errUnsupported) Error() string { return "unsupported in lowering: " + e.msg }
 
 type lowerer struct {
+	bounds map[*Term]*ival // facts learned from the path condition (vars only)
+	ivmemo map[*Term]*ival
 	ufs   map[string]bool
 	th    theory
 	names map[*Term]string
@@ -140,13 +142,19 @@ func (l *lowerer) lower(t *Term) (string, error) {
 		if bv {
 			body = fmt.Sprintf("(%s %s %s)", map[Op]string{OpAdd: "bvadd", OpSub: "bvsub", OpMul: "bvmul"}[t.op], a[0], a[1])
 		} else {
-			body = l.wrap(fmt.Sprintf("(%s %s %s)", map[Op]string{OpAdd: "+", OpSub: "-", OpMul: "*"}[t.op], a[0], a[1]), t.w, t.signed)
+			body = fmt.Sprintf("(%s %s %s)", map[Op]string{OpAdd: "+", OpSub: "-", OpMul: "*"}[t.op], a[0], a[1])
+			if !l.exactFits(t) {
+				body = l.wrap(body, t.w, t.signed)
+			}
 		}
 	case OpNeg:
 		if bv {
 			body = "(bvneg " + a[0] + ")"
 		} else {
-			body = l.wrap("(- "+a[0]+")", t.w, t.signed)
+			body = "(- " + a[0] + ")"
+			if !l.exactFits(t) {
+				body = l.wrap(body, t.w, t.signed)
+			}
 		}
 	case OpDiv:
 		if bv {
@@ -156,7 +164,11 @@ func (l *lowerer) lower(t *Term) (string, error) {
 				body = fmt.Sprintf("(bvudiv %s %s)", a[0], a[1])
 			}
 		} else if t.signed {
-			body = l.wrap(fmt.Sprintf("(tdiv %s %s)", a[0], a[1]), t.w, true)
+			if l.nonneg(t.args[0]) && l.positive(t.args[1]) {
+				body = fmt.Sprintf("(div %s %s)", a[0], a[1])
+			} else {
+				body = l.wrap(fmt.Sprintf("(tdiv %s %s)", a[0], a[1]), t.w, true)
+			}
 		} else {
 			body = fmt.Sprintf("(div %s %s)", a[0], a[1])
 		}
@@ -168,7 +180,11 @@ func (l *lowerer) lower(t *Term) (string, error) {
 				body = fmt.Sprintf("(bvurem %s %s)", a[0], a[1])
 			}
 		} else if t.signed {
-			body = fmt.Sprintf("(trem %s %s)", a[0], a[1])
+			if l.nonneg(t.args[0]) && l.positive(t.args[1]) {
+				body = fmt.Sprintf("(mod %s %s)", a[0], a[1])
+			} else {
+				body = fmt.Sprintf("(trem %s %s)", a[0], a[1])
+			}
 		} else {
 			body = fmt.Sprintf("(mod %s %s)", a[0], a[1])
 		}
@@ -243,7 +259,10 @@ func (l *lowerer) lower(t *Term) (string, error) {
 					body = "0"
 				}
 			} else if t.op == OpShl {
-				body = l.wrap(fmt.Sprintf("(* %s %s)", a[0], pow2(uint(k))), t.w, t.signed)
+				body = fmt.Sprintf("(* %s %s)", a[0], pow2(uint(k)))
+				if !l.exactFits(t) {
+					body = l.wrap(body, t.w, t.signed)
+				}
 			} else {
 				body = fmt.Sprintf("(div %s %s)", a[0], pow2(uint(k)))
 			}
@@ -269,7 +288,7 @@ func (l *lowerer) lower(t *Term) (string, error) {
 			case !src.signed && t.signed:
 				nested = src.w < t.w
 			}
-			if nested {
+			if nested || l.exactFits(t) {
 				return a[0], nil
 			}
 			body = l.wrap(a[0], t.w, t.signed)
@@ -444,7 +463,7 @@ func startSolver(key string, timeoutMs int) (*solverProc, error) {
 }
 
 func (p *solverProc) resetLowerer() {
-	p.low = &lowerer{th: p.spec.th, names: map[*Term]string{}, out: &strings.Builder{}}
+	p.low = &lowerer{th: p.spec.th, names: map[*Term]string{}, out: &strings.Builder{}, bounds: map[*Term]*ival{}, ivmemo: map[*Term]*ival{}}
 	p.synced = 0
 }
 
@@ -522,6 +541,9 @@ func (p *solverProc) check(pc []*Term, extra *Term, vars []*Term, wantModel bool
 	low := p.low
 	low.out.Reset()
 	for ; p.synced < len(pc); p.synced++ {
+		if low.th == thINT {
+			low.learn(pc[p.synced], true)
+		}
 		n, err := low.lower(pc[p.synced])
 		if err != nil {
 			return resUnknown, nil, err.Error()
@@ -692,4 +714,250 @@ func tokenizeSexp(s string) []string {
 	}
 	flush()
 	return toks
+}
+
+// ---- interval analysis (INT lowering only): elides wrap-around where the exact
+// result provably fits, using variable ranges and simple bounds learned from the
+// path condition (which is asserted in the same solver scope). ----
+
+type ival struct{ lo, hi *big.Int }
+
+func typeRange(w uint8, signed bool) *ival {
+	if w == 0 {
+		return &ival{big.NewInt(0), big.NewInt(1)}
+	}
+	if signed {
+		return &ival{new(big.Int).Neg(pow2(uint(w) - 1)), new(big.Int).Sub(pow2(uint(w)-1), big.NewInt(1))}
+	}
+	return &ival{big.NewInt(0), new(big.Int).Sub(pow2(uint(w)), big.NewInt(1))}
+}
+
+func (iv *ival) within(o *ival) bool { return iv.lo.Cmp(o.lo) >= 0 && iv.hi.Cmp(o.hi) <= 0 }
+
+func termConstBig(t *Term) *big.Int {
+	if t.signed {
+		return big.NewInt(sx(t.c, t.w))
+	}
+	return new(big.Int).SetUint64(t.c)
+}
+
+// exact returns the interval of the mathematically exact result of t's operation
+// (before wrap-around), or nil if unknown.
+func (l *lowerer) exact(t *Term) *ival {
+	get := func(i int) *ival { return l.interval(t.args[i]) }
+	switch t.op {
+	case OpAdd:
+		a, b := get(0), get(1)
+		return &ival{new(big.Int).Add(a.lo, b.lo), new(big.Int).Add(a.hi, b.hi)}
+	case OpSub:
+		a, b := get(0), get(1)
+		return &ival{new(big.Int).Sub(a.lo, b.hi), new(big.Int).Sub(a.hi, b.lo)}
+	case OpNeg:
+		a := get(0)
+		return &ival{new(big.Int).Neg(a.hi), new(big.Int).Neg(a.lo)}
+	case OpMul:
+		a, b := get(0), get(1)
+		c := []*big.Int{new(big.Int).Mul(a.lo, b.lo), new(big.Int).Mul(a.lo, b.hi), new(big.Int).Mul(a.hi, b.lo), new(big.Int).Mul(a.hi, b.hi)}
+		lo, hi := c[0], c[0]
+		for _, x := range c[1:] {
+			if x.Cmp(lo) < 0 {
+				lo = x
+			}
+			if x.Cmp(hi) > 0 {
+				hi = x
+			}
+		}
+		return &ival{lo, hi}
+	case OpShl:
+		if t.args[1].isConst() && t.args[1].c < 64 {
+			a := get(0)
+			m := pow2(uint(t.args[1].c))
+			return &ival{new(big.Int).Mul(a.lo, m), new(big.Int).Mul(a.hi, m)}
+		}
+	case OpConv:
+		return get(0)
+	}
+	return nil
+}
+
+func (l *lowerer) exactFits(t *Term) bool {
+	e := l.exact(t)
+	return e != nil && e.within(typeRange(t.w, t.signed))
+}
+
+func (l *lowerer) nonneg(t *Term) bool   { return l.interval(t).lo.Sign() >= 0 }
+func (l *lowerer) positive(t *Term) bool { return l.interval(t).lo.Sign() > 0 }
+
+// interval returns a sound enclosure of t's value (its Go-semantics integer).
+func (l *lowerer) interval(t *Term) *ival {
+	if iv, ok := l.ivmemo[t]; ok {
+		return iv
+	}
+	full := typeRange(t.w, t.signed)
+	var iv *ival
+	switch t.op {
+	case OpConst:
+		if t.w == 0 {
+			iv = full
+		} else {
+			c := termConstBig(t)
+			iv = &ival{c, c}
+		}
+	case OpVar:
+		iv = full
+		if b, ok := l.bounds[t]; ok {
+			iv = b
+		}
+	case OpAdd, OpSub, OpNeg, OpMul, OpShl, OpConv:
+		if e := l.exact(t); e != nil && e.within(full) {
+			iv = e
+		}
+	case OpDiv:
+		a, b := l.interval(t.args[0]), l.interval(t.args[1])
+		if a.lo.Sign() >= 0 && b.lo.Sign() > 0 {
+			iv = &ival{new(big.Int).Div(a.lo, b.hi), new(big.Int).Div(a.hi, b.lo)}
+		}
+	case OpRem:
+		a, b := l.interval(t.args[0]), l.interval(t.args[1])
+		if a.lo.Sign() >= 0 && b.lo.Sign() > 0 {
+			hi := new(big.Int).Sub(b.hi, big.NewInt(1))
+			if a.hi.Cmp(hi) < 0 {
+				hi = a.hi
+			}
+			iv = &ival{big.NewInt(0), hi}
+		}
+	case OpAnd:
+		// x & c with a non-negative constant mask is within [0, c]
+		for k := 0; k < 2; k++ {
+			if c := t.args[k]; c.isConst() && (!c.signed || sx(c.c, c.w) >= 0) {
+				iv = &ival{big.NewInt(0), new(big.Int).SetUint64(c.c)}
+			}
+		}
+	case OpShr:
+		if t.args[1].isConst() && t.args[1].c < 64 {
+			a := l.interval(t.args[0])
+			m := pow2(uint(t.args[1].c))
+			iv = &ival{new(big.Int).Div(a.lo, m), new(big.Int).Div(a.hi, m)}
+			if a.lo.Sign() < 0 {
+				// floor division for negatives: Div is Euclidean for positive m, which equals floor
+			}
+		}
+	case OpIte:
+		a, b := l.interval(t.args[1]), l.interval(t.args[2])
+		lo, hi := a.lo, a.hi
+		if b.lo.Cmp(lo) < 0 {
+			lo = b.lo
+		}
+		if b.hi.Cmp(hi) > 0 {
+			hi = b.hi
+		}
+		iv = &ival{lo, hi}
+	}
+	if iv == nil {
+		iv = full
+	}
+	l.ivmemo[t] = iv
+	return iv
+}
+
+// boundTarget returns the variable a bound on t transfers to (t itself, or a
+// variable under value-preserving conversions).
+func boundTarget(t *Term) *Term {
+	for t.op == OpConv {
+		src := t.args[0]
+		nested := false
+		switch {
+		case src.signed == t.signed:
+			nested = src.w <= t.w
+		case !src.signed && t.signed:
+			nested = src.w < t.w
+		}
+		if !nested {
+			return nil
+		}
+		t = src
+	}
+	if t.op == OpVar && t.w > 0 {
+		return t
+	}
+	return nil
+}
+
+func (l *lowerer) tighten(v *Term, lo, hi *big.Int) {
+	cur, ok := l.bounds[v]
+	if !ok {
+		cur = typeRange(v.w, v.signed)
+	}
+	n := &ival{cur.lo, cur.hi}
+	if lo != nil && lo.Cmp(n.lo) > 0 {
+		n.lo = lo
+	}
+	if hi != nil && hi.Cmp(n.hi) < 0 {
+		n.hi = hi
+	}
+	if n.lo.Cmp(n.hi) > 0 {
+		return // contradictory: leave as is (the solver will say unsat)
+	}
+	l.bounds[v] = n
+	// intervals of terms computed earlier stay sound (they were enclosures before); new terms benefit
+	delete(l.ivmemo, v)
+}
+
+// learn extracts variable bounds from a path-condition conjunct.
+func (l *lowerer) learn(c *Term, pos bool) {
+	one := big.NewInt(1)
+	switch c.op {
+	case OpBAnd:
+		if pos {
+			l.learn(c.args[0], true)
+			l.learn(c.args[1], true)
+		}
+	case OpBOr:
+		if !pos {
+			l.learn(c.args[0], false)
+			l.learn(c.args[1], false)
+		}
+	case OpNot:
+		l.learn(c.args[0], !pos)
+	case OpLe, OpLt:
+		a, b := c.args[0], c.args[1]
+		strict := c.op == OpLt
+		if !pos {
+			// not (a <= b)  ==  b < a ;  not (a < b) == b <= a
+			a, b = b, a
+			strict = !strict
+		}
+		// now: a < b or a <= b
+		if a.isConst() {
+			if v := boundTarget(b); v != nil {
+				lo := termConstBig(a)
+				if strict {
+					lo = new(big.Int).Add(lo, one)
+				}
+				l.tighten(v, lo, nil)
+			}
+		} else if b.isConst() {
+			if v := boundTarget(a); v != nil {
+				hi := termConstBig(b)
+				if strict {
+					hi = new(big.Int).Sub(hi, one)
+				}
+				l.tighten(v, nil, hi)
+			}
+		}
+	case OpEq:
+		if !pos {
+			return
+		}
+		a, b := c.args[0], c.args[1]
+		if a.isConst() {
+			a, b = b, a
+		}
+		if b.isConst() && b.w > 0 {
+			if v := boundTarget(a); v != nil {
+				k := termConstBig(b)
+				l.tighten(v, k, k)
+			}
+		}
+	}
 }
